@@ -15,7 +15,7 @@ RULE = ('kinds: loop = loop(list,tuple,dict)(f) on random nestings of lists / tu
         'positionally, by keyword or mixed (also the lifted argument itself by keyword), f recording exactly what it receives (lambda a,*args,**kw) or binding named '
         'parameters (lambda a,b=None,c=None); lib = lower upper strip proper capitalize replace split f12 as_float on nested structures of strings / numbers / None; '
         'zip = zipper over scalars (strings included), lists, tuples, ranges and zip objects of lengths 0-4 (a few of 100-140), plus lens on the same values; as = as_list / as_tuple (none=True included, ranges) applied once and twice; wait = waiter on a nested structure holding up to 5 '
-        '(thorough: 6) futures / coroutines / tasks under a real asyncio event loop, the futures resolved by a driver in EVERY permutation, (also all results set within one loop iteration, and one future / task placed twice; every quick run has one structure with 6 awaitables = 720 orders), recording the final value and '
+        '(thorough: 6) futures / coroutines / tasks under a real asyncio event loop, the futures resolved by a driver in EVERY permutation, (also all results set within one loop iteration, and one future / task placed twice; plus a chain stream: 2-5 lazy coroutines placed in dicts, lists, dicts of lists, lists of dicts and deeper mixes whose completion order is forced by events - awaitable k can only finish after awaitable k-1 - under every permutation, a waiter that does not return within 0.5 s being the outcome Timeout = violation; every quick run has one structure with 6 awaitables = 720 orders), recording the final value and '
         'whether waiter had returned before each completion. Each observation is compared in Coq with M_loop (wrapped / zipper / as_list / as_tuple / collect). The oracle '
         're-derives the expected result from the property text: a plain recursive map where a companion of the same length (dicts: same keys) is indexed, anything else '
         'is passed whole (no exemption: a different-shape companion holding a sub-container of the matching length / keys is searched recursively by _item_by_i / _item_by_key instead of being broadcast - '
@@ -69,7 +69,7 @@ def coq_wval(s):
 
 def coq_runner(case):
     return {'loop': 'run_loop' if case.get('mode') != 'named' else 'run_loop_named', 'lib': 'run_loop_id', 'zip': 'run_zipper',
-            'as': 'run_as', 'wait': 'run_waiter'}[case['kind']]
+            'as': 'run_as', 'wait': 'run_waiter_chain' if case.get('chain') else 'run_waiter'}[case['kind']]
 
 def coq_case(case):
     k = case['kind']
@@ -328,7 +328,55 @@ def impl_as(case):
             viol = '%s(%r) = %r, expected %r' % (f.__name__, v, r1, want)
     return {'status': 'ok', 'obs': [render(r1), render(r2)], 'viol': viol}
 
+WAIT_TIMEOUT = 0.5      # seconds granted to waiter once every awaitable is able to finish; exceeding it is the outcome 'Timeout'
+
+def impl_wait_chain(case):
+    """completion orders forced by events, not by a driver: awaitable order[k] can only finish after order[k-1] has finished, and a
+    coroutine does nothing before it is awaited - so waiter must start every awaitable of a list AND of a dict concurrently"""
+    m = len(case['results']); results = [build(x) for x in case['results']]; kinds = case['kinds']
+    exp_struct = subst_py(case['w'], results)
+    out = []; viol = None
+    async def one(order):
+        events = {i: asyncio.Event() for i in range(m)}; finished = []
+        async def job(i):
+            pos = order.index(i)
+            if pos > 0:
+                await events[order[pos - 1]].wait()
+            finished.append(i); events[i].set()
+            return results[i]
+        def aw(i):
+            return job(i) if kinds[i] == 'chain' else asyncio.ensure_future(job(i))     # lazy coroutine | already scheduled task
+        struct = build_w(case['w'], aw)
+        try:
+            return await asyncio.wait_for(waiter(struct), WAIT_TIMEOUT), finished
+        except asyncio.TimeoutError:
+            return 'Timeout', finished
+    for order in itertools.permutations(range(m)):
+        if viol is not None and 'never returned' in viol:       # one deadlock is enough: do not wait out every remaining order
+            out.append(['ERR', 'Timeout']); continue
+        try:
+            res, finished = asyncio.run(one(order))
+            if isinstance(res, str) and res == 'Timeout':
+                o = ['ERR', 'Timeout']
+                if viol is None or 'never returned' not in viol:
+                    viol = 'waiter(%s) never returned (Timeout after %ss) when the awaitables can only complete in the order %s: only %s finished' % (
+                        json.dumps(case['w']), WAIT_TIMEOUT, list(order), finished)
+            else:
+                o = [render(res), list(finished)]
+                if viol is None and not same(res, exp_struct):
+                    viol = 'waiter(%s) with completion order %s returned %r, expected %r' % (json.dumps(case['w']), list(order), res, exp_struct)
+                if viol is None and finished != list(order):
+                    viol = 'awaitables finished in order %s, forced order %s' % (finished, list(order))
+        except Exception as e:
+            o = ['ERR', err(e)]
+            if viol is None:
+                viol = 'waiter raised %s under completion order %s: %s' % (type(e).__name__, list(order), str(e)[:100])
+        out.append(o)
+    return {'status': 'Timeout' if viol and 'never returned' in viol else 'ok', 'obs': out, 'viol': viol}
+
 def impl_wait(case):
+    if case.get('chain'):
+        return impl_wait_chain(case)
     m = len(case['results']); results = [build(x) for x in case['results']]; kinds = case['kinds']
     cache = {}
     exp_struct = subst_py(case['w'], results)
@@ -420,6 +468,8 @@ def shape(case):
         return 'zip:%d:%s%s' % (len(case['vals']), kinds, ':>100' if big else '')
     if k == 'as':
         return ('as_tuple' if case['tuple'] else 'as_list') + (':none' if case.get('none') else '') + (':range' if isinstance(case['v'], dict) and 'R' in case['v'] else '')
+    if case.get('chain'):
+        return 'wait:chain:%s:%d' % (case.get('shape', '?'), len(case['results']))
     return 'wait:%d%s' % (len(case['results']), ':burst' if case.get('burst') else '')
 
 # ---------------------------------------------------------------- generation
@@ -609,6 +659,36 @@ def gen_wait(rng, maxm, m=None):
         case['burst'] = True
     return case
 
+def gen_wait_chain(rng):
+    """<= 5 awaitables placed in dicts, lists, dicts of lists, lists of dicts and deeper mixes; event-forced completion orders"""
+    m = rng.choice([2, 3, 3, 4, 4, 5])
+    ids = list(range(m)); rng.shuffle(ids)
+    ctr = Ctr(0)
+    def A(): return {'A': ids.pop()} if ids else ctr.next()
+    def D(vals, cls=None):
+        keys, classes = rand_keys(rng, len(vals), True)
+        if len(keys) < len(vals):
+            keys, classes = rng.sample(range(10), len(vals)), [0, 0, 1, 2, 3]
+        return {'D': [rng.choice(classes) if cls is None else cls, [[k, v] for k, v in zip(keys, vals)]]}
+    t = rng.choice(['dict', 'dict', 'dict_of_lists', 'list_of_dicts', 'dict_of_dicts', 'mix', 'list'])
+    if t == 'dict':
+        w = D([A() for _ in range(m)] + [ctr.next() for _ in range(rng.choice([0, 1]))])
+    elif t == 'list':
+        w = {rng.choice('LT'): [A() for _ in range(m)]}
+    elif t == 'dict_of_lists':
+        w = D([{rng.choice('LT'): [A() for _ in range(rng.choice([1, 2]))]} for _ in range(3)])
+    elif t == 'list_of_dicts':
+        w = {'L': [D([A() for _ in range(rng.choice([1, 2]))]) for _ in range(3)]}
+    elif t == 'dict_of_dicts':
+        w = D([D([A(), A()]), A(), D([A(), ctr.next()])])
+    else:
+        w = D([A(), {'L': [A(), D([A(), {'T': [A(), ctr.next()]}])]}, A(), ctr.next()])
+    if ids:
+        w = D([w] + [{'A': i} for i in list(ids)]); del ids[:]
+    rc = Ctr(100)
+    results = [rc.next() if rng.random() < 0.7 else rand_struct(rng, 2, rc, p_leaf=0.4) for _ in range(m)]
+    return {'kind': 'wait', 'chain': True, 'shape': t, 'w': w, 'results': results, 'kinds': [rng.choice(['chain', 'chain', 'chain', 'chaintask']) for _ in range(m)]}
+
 def gen_cases(rng, tier):
     q = tier == 'quick'
     cases = []
@@ -617,7 +697,8 @@ def gen_cases(rng, tier):
     cases += [gen_zip(rng) for _ in range(500 if q else 6000)]
     cases += [gen_as(rng, True) for _ in range(300 if q else 3000)]
     cases += [gen_wait(rng, 5 if q else 6) for _ in range(80 if q else 500)]
-    cases += [gen_wait(rng, 6, m=6)]                     # the quantifier's upper bound: 6 awaitables, all 720 completion orders
+    cases += [gen_wait(rng, 6, m=6)]
+    cases += [gen_wait_chain(rng) for _ in range(40 if q else 300)]                     # the quantifier's upper bound: 6 awaitables, all 720 completion orders
     return cases
 
 def shrink(case):
